@@ -13,7 +13,7 @@
 #include "vf_alloc.h"
 #include "vf_rec.h"
 
-enum { K_N8_PAIRS = VC_USER, K_N16_PAIRS, K_CONSERVATIVE, K_GROWTH, K_SERSIZE, K_GRID, K_E2E, K_E2E_REFUSED, K_E2E_GRANTED, K_NARROW_RUNS, K_SERIALIZE_SMALL, K_NARROW_SERIALIZE, K_NARROW_BUILD, K_BUILD_HUGE };
+enum { K_N8_PAIRS = VC_USER, K_N16_PAIRS, K_CONSERVATIVE, K_GROWTH, K_SERSIZE, K_GRID, K_E2E, K_E2E_REFUSED, K_E2E_GRANTED, K_NARROW_RUNS, K_SERIALIZE_SMALL, K_NARROW_SERIALIZE, K_NARROW_BUILD, K_BUILD_HUGE, K_SHARED_RUNS };
 #define N16_JOBS 64
 typedef unsigned __int128 u128;
 
@@ -168,6 +168,19 @@ static void e2e_unit(void) {
                 u128 want = (u128)nn + (nn <= 23 ? 1 : nn <= 0xff ? 2 : nn <= 0xffff ? 3 : nn <= 0xffffffffull ? 5 : 9);
                 if (!((want <= UINT64_MAX && got == (uint64_t)want) || (want > UINT64_MAX && got == 0)))
                   vf_fail(NULL, "cbor_serialized_size of a %s string with declared length %#" PRIx64 " = %#" PRIx64 ", exact total is %s%#" PRIx64, text ? "text" : "byte", nn, got, want > UINT64_MAX ? "2^64+" : "", (uint64_t)want);
+                /* the same item in 2, 3 and 4 slots of one array (a run of identical references): the total is the exact sum or 0 */
+                for (unsigned run = 2; run <= 4; run++) {
+                  cbor_item_t* arr = cbor_new_definite_array(run);
+                  if (!arr) break;
+                  for (unsigned q = 0; q < run; q++) (void)cbor_array_push(arr, s);
+                  uint64_t g2 = cbor_serialized_size(arr);
+                  u128 w2 = 1 + (u128)run * want;
+                  vf_cnt(K_SHARED_RUNS, 1);
+                  if (!((w2 <= UINT64_MAX && g2 == (uint64_t)w2) || (w2 > UINT64_MAX && g2 == 0)))
+                    vf_fail(NULL, "cbor_serialized_size of an array holding one %s string of declared length %#" PRIx64 " in %u slots = %#" PRIx64 ", exact total is %s%#" PRIx64, text ? "text" : "byte", nn, run, g2,
+                            w2 > UINT64_MAX ? "2^64+" : "", (uint64_t)w2);
+                  cbor_decref(&arr);
+                }
                 /* a buffer the encoding cannot fit into: 0, and no byte of the (absent) payload is read or written */
                 static const size_t BS[] = {0, 1, 5, 9, 10, 16, 64, 4096};
                 for (unsigned b = 0; b < sizeof BS / sizeof BS[0]; b++) {
@@ -246,6 +259,6 @@ struct vf_check vf_the_check = {
                     "narrow programs are built with ASan/UBSan: an under-allocation that is then written to is also a heap-buffer-overflow report"},
     .counters = {[VC_EVAL] = "cases_judged", [VC_DISTINCT] = "distinct_operand_pairs", [VC_TRANS] = "unused", [VC_TRACES] = "executed_on_implementation", [K_N8_PAIRS] = "pairs_at_8_bit_size_t",
                  [K_N16_PAIRS] = "pairs_at_16_bit_size_t", [K_CONSERVATIVE] = "conservative_refusals_observed", [K_GROWTH] = "growth_steps_at_narrow_widths", [K_SERSIZE] = "serialized_size_cases_at_narrow_widths",
-                 [K_GRID] = "grid_cells_at_64_bit", [K_E2E] = "end_to_end_calls", [K_E2E_REFUSED] = "end_to_end_calls_that_failed_or_need_no_memory", [K_E2E_GRANTED] = "end_to_end_calls_granted", [K_NARROW_SERIALIZE] = "serialize_calls_at_narrow_widths", [K_NARROW_BUILD] = "copying_string_constructors_at_narrow_widths", [K_BUILD_HUGE] = "copying_string_constructors_with_lengths_up_to_SIZE_MAX", [K_SERIALIZE_SMALL] = "serialize_calls_on_strings_of_huge_declared_length_into_small_buffers",
+                 [K_GRID] = "grid_cells_at_64_bit", [K_E2E] = "end_to_end_calls", [K_E2E_REFUSED] = "end_to_end_calls_that_failed_or_need_no_memory", [K_E2E_GRANTED] = "end_to_end_calls_granted", [K_NARROW_SERIALIZE] = "serialize_calls_at_narrow_widths", [K_NARROW_BUILD] = "copying_string_constructors_at_narrow_widths", [K_SHARED_RUNS] = "arrays_holding_one_huge_item_in_2_to_4_slots_sized", [K_BUILD_HUGE] = "copying_string_constructors_with_lengths_up_to_SIZE_MAX", [K_SERIALIZE_SMALL] = "serialize_calls_on_strings_of_huge_declared_length_into_small_buffers",
                  [K_NARROW_RUNS] = "narrow_program_runs"},
     .init = init, .units = units, .unit = unit, .replay = replay};
